@@ -7,10 +7,15 @@ _BIN = { ast.Add: operator.add, ast.Sub: operator.sub, ast.Mult: operator.mul, a
 _UN = { ast.USub: operator.neg, ast.UAdd: operator.pos, ast.Invert: operator.invert, ast.Not: operator.not_ }
 
 
-_PURE_STR_METHODS = ( 'startswith', 'endswith', 'lower', 'upper', 'strip', 'lstrip', 'rstrip', 'isdigit', 'split', 'rsplit', 'splitlines', 'replace', 'zfill', 'encode', 'decode', 'count', 'find', 'rfind', 'partition', 'rpartition', 'ljust', 'rjust', 'center', 'title', 'capitalize', 'casefold', 'isalpha', 'isalnum' )
+_PURE_STR_METHODS = ( 'startswith', 'endswith', 'lower', 'upper', 'strip', 'lstrip', 'rstrip', 'isdigit', 'split', 'rsplit', 'splitlines', 'replace', 'zfill', 'encode', 'decode', 'count', 'find', 'rfind', 'partition', 'rpartition', 'ljust', 'rjust', 'center', 'title', 'capitalize', 'casefold', 'isalpha', 'isalnum', 'join' )
 
 
 class NoFold( Exception ):
+    pass
+
+
+class Raises( NoFold ):
+    """the expression was evaluated on concrete values and the operation itself raised ( '%g' % 'text' ): a fact about the code, not a limit of the folder"""
     pass
 
 
@@ -44,7 +49,7 @@ def fold( e, env=None ):
         try:
             return _BIN[type( e.op )]( l, r )
         except Exception as exc:
-            raise NoFold( str( exc ))
+            raise Raises( '%s: %s' % ( type( exc ).__name__, exc ))
     if isinstance( e, ast.UnaryOp ) and type( e.op ) in _UN:
         return _UN[type( e.op )]( fold( e.operand, env ))
     if isinstance( e, ast.Tuple ):
@@ -326,6 +331,9 @@ def run_block( stmts, env, ignore_calls=(), stop_at_yield=True ):
                 continue
             if isinstance( v, ast.Call ) and any(( call_name( v ) or '' ).split( '.' )[-1] == n or ( call_name( v ) or '' ).startswith( n + '.' ) for n in ignore_calls ):
                 continue
+            if isinstance( v, ast.Call ) and call_name( v ) and callable( _env_get( env, call_name( v )) if _env_get( env, call_name( v )) is not NoFold else None ):
+                fold( v, env )						# a recording stand-in of the rule's
+                continue
             raise NoFold( 'statement %s' % ast.dump( v )[:60] )
         if isinstance( st, ast.Assign ) and len( st.targets ) == 1:
             _store( st.targets[0], fold( st.value, env ), env )
@@ -356,6 +364,13 @@ def run_block( stmts, env, ignore_calls=(), stop_at_yield=True ):
                     done = out; break
             if done is not None:
                 return done
+            continue
+        if isinstance( st, ast.Try ):
+            # the straight path only: body, else, finally ( a body that cannot be folded is not a decision fragment; handlers are not modelled )
+            for part in ( st.body, st.orelse, st.finalbody ):
+                out = run_block( part, env, ignore_calls, stop_at_yield )
+                if out.kind != 'fall':
+                    return out
             continue
         if isinstance( st, ast.Assert ):
             if not fold( st.test, env ):
